@@ -324,7 +324,10 @@ def execute(trace):
         """what handler h leaves in out_data during notification n"""
         if not rich:
             return f"out{n}.{h}"
-        kind = (n + h) % 5
+        kind = (n + h) % 10
+        if kind >= 5:
+            # results that are empty / falsy are results all the same
+            return ["", [], {}, (), None][kind - 5]
         if kind == 0:
             return {"kind": "result", "n": n, "h": h}
         if kind == 1:
